@@ -5,6 +5,7 @@ import (
 	"fmt"
 	"io"
 	"strconv"
+	"unicode/utf8"
 )
 
 const encodeHex = "0123456789ABCDEF"
@@ -20,6 +21,16 @@ func writeQuotedString(w io.Writer, s string) {
 	io.WriteString(w, `"`)
 
 	for i, c := range s {
+		if c == utf8.RuneError {
+			if _, size := utf8.DecodeRuneInString(s[i:]); size == 1 {
+				// a byte that is not valid UTF-8 would make the whole response invalid JSON:
+				// replace it like encoding/json does
+				io.WriteString(w, s[start:i])
+				io.WriteString(w, `\ufffd`)
+				start = i + 1
+			}
+			continue
+		}
 		if c < 0x20 || c == '\\' || c == '"' {
 			io.WriteString(w, s[start:i])
 
